@@ -11,6 +11,7 @@ package main
 import (
 	"fmt"
 	"go/ast"
+	"go/constant"
 	"go/types"
 	"strings"
 )
@@ -168,7 +169,26 @@ func (g *Gen) initComposite(info *types.Info, x *ast.CompositeLit, t types.Type,
 		}
 		return "(" + si.Ctor + " " + strings.Join(vals, " ") + ")", true
 	case *types.Slice:
-		if _, ok := g.reg.seqs[sort]; !ok || sort == "Bytes" {
+		if sort == "Bytes" {
+			// []byte{c0, c1, ...} of constants: the byte string with exactly these bytes (non-nil)
+			var bs []byte
+			for _, el := range x.Elts {
+				if _, ok := el.(*ast.KeyValueExpr); ok {
+					return "", false
+				}
+				tv, ok := info.Types[el]
+				if !ok || tv.Value == nil || tv.Value.Kind() != constant.Int {
+					return "", false
+				}
+				v, exact := constant.Int64Val(tv.Value)
+				if !exact || v < 0 || v > 255 {
+					return "", false
+				}
+				bs = append(bs, byte(v))
+			}
+			return "(tobytes " + g.strLit(string(bs)) + ")", true
+		}
+		if _, ok := g.reg.seqs[sort]; !ok {
 			return "", false
 		}
 		var elems []string
